@@ -57,7 +57,10 @@ RULE = (
     "200-245 characters / 246-255 characters (no room for the staging directory name) / nested 3-9 directories "
     "deep. Every LINE event of "
     "the recorded save is a death position; every counted call of a file-system function, tensor "
-    "method or callback is an exception position (and a mid-write death position for writes). Fault pairs: "
+    "method or callback is an exception position (and a mid-write death position for writes); so is every "
+    "write(2) below the buffered file object of the data file being produced (refused for good from the k-th one on, "
+    "whole or after a short write: the failure surfaces at whatever later seek/flush/close flushes the buffer and "
+    "the buffered bytes are lost). Fault pairs: "
     "every single fault after which the save still returned normally (failing setup call worked around, "
     "EXDEV fallback) is kept in place while the run is recorded again and the positions that follow it "
     "(exceptions, mid-write and LINE deaths) are exercised - sampled in quick, all in thorough - plus a "
@@ -67,7 +70,7 @@ RULE = (
 )
 ASSUMPTIONS = [
     "process death is os._exit at a LINE event or in the middle of a write: page cache survives, no power loss / fsync ordering is modelled",
-    "exceptions are injected only at calls the save makes to tempfile.mkdtemp, open, file seek/write/truncate/flush/close, os.copy_file_range, shutil.copymode, os.replace, os.remove, os.rmdir, tensor tofile/tobytes/numpy, LazyTensor functions and the user callback - never at arbitrary lines",
+    "exceptions are injected only at calls the save makes to tempfile.mkdtemp, open, file seek/write/truncate/flush/close, the write(2) calls CPython's own buffered layer makes for the data file being produced (the harness opens it unbuffered and puts a real io.BufferedWriter/BufferedRandom on top; once refused, every later write(2) on a data file is refused too; bytes numpy/copy_file_range write through the descriptor itself are not intercepted there), os.copy_file_range, shutil.copymode, os.replace, os.remove, os.rmdir, tensor tofile/tobytes/numpy, LazyTensor functions and the user callback - never at arbitrary lines",
     "the wrappers take effect because external_data/_core resolve os.replace, shutil.copymode, tempfile.mkdtemp, os.remove, os.rmdir, os.copy_file_range and open at call time; a refactoring that binds them early makes the position counters drop below their floors (inconclusive), never 'held'",
     "the complete new bytes are those of an undisturbed save of the same scenario into another directory (cross-checked against the concatenation of the generated payloads: mismatches are counted, C07 judges layout)",
     "in parallel saves the k-th call / n-th LINE event is schedule dependent; every index of the recorded run is still exercised once",
@@ -141,6 +144,8 @@ def plan(tier: str) -> dict:
             "exc_fired|mkdtemp": 4 if quick else 80,
             "exc_fired|open": 5 if quick else 80,
             "exc_fired|file.write": 15 if quick else 200,
+            # write(2) refused below the buffered layer (reported late, buffered bytes lost)
+            "exc_fired|raw.write": 15 if quick else 200,
             "exc_fired|tensor": 8 if quick else 100,
             "exc_fired|callback": 8 if quick else 100,
             "exc_judged|strict": 150 if quick else 3000,
@@ -756,6 +761,7 @@ def _fault_tag(site: str, k: int, how: str, single_file: bool) -> str:
         "mkdtemp": "tempfile.mkdtemp", "copymode": "shutil.copymode", "replace": "os.replace",
         "remove": "os.remove", "rmdir": "os.rmdir", "copy_file_range": "os.copy_file_range",
         "core.open": "open(source)", "open": "open(datafile)",
+        "raw.write": "write(2)@datafile",
     }.get(site, site)
     if single_file and site in ("mkdtemp", "copymode", "replace", "remove", "rmdir"):
         nice += f"#{k}"
@@ -773,6 +779,10 @@ _ERRNOS = {
     "file.truncate": ["ENOSPC", "EIO"],
     "file.flush": ["ENOSPC", "EIO"],
     "file.close": ["ENOSPC", "EIO"],
+    # the device below CPython's buffered file object refuses bytes from the k-th write(2) on: the
+    # error is reported wherever the buffered layer flushes (a later seek / tell / flush / truncate /
+    # close, or the write itself when the bytes do not fit the buffer) and the buffered bytes are lost
+    "raw.write": ["ENOSPC", "EFBIG", "EIO", "EDQUOT"],
     "copy_file_range": ["ENOSPC", "EIO", "EXDEV"],
     "copymode": ["EACCES", "EPERM"],
     "replace": ["EXDEV", "EACCES", "ENOSPC"],
@@ -786,7 +796,7 @@ _NON_OS = {
     "lazy.func": [["RuntimeError"], ["MemoryError"]],
     "callback": [["RuntimeError"], ["KeyboardInterrupt"]],
 }
-_HALF_SITES = ("file.write", "tensor.tofile", "copy_file_range")
+_HALF_SITES = ("file.write", "tensor.tofile", "copy_file_range", "raw.write")
 
 
 def exception_positions(counts: Counter, rng, all_variants: bool) -> list[list]:
@@ -824,7 +834,7 @@ def pair_positions(counts: Counter, rng) -> list[list]:
         primaries.append(["replace", 1, ["raise", ["OSError", "EXDEV"]]])
     if counts.get("copymode"):
         primaries.append(["copymode", 1, ["raise", ["OSError", "EACCES"]]])
-    for site in ("tensor.tofile", "file.write", "callback", "lazy.func"):
+    for site in ("tensor.tofile", "file.write", "raw.write", "callback", "lazy.func"):
         if counts.get(site):
             k = rng.randint(1, counts[site])
             how = "raise_after_half" if site in _HALF_SITES else "raise"
